@@ -117,6 +117,7 @@ class Gen:
         self.p = profile or {}
         self.tag_n = 0
         self.addr_pool = []
+        self.pseudo_pool = {}
 
     # ---- emission ----------------------------------------------------------------------
     def emit(self, name, value=None, pops=0, pushes=0):
@@ -145,10 +146,21 @@ class Gen:
             return ("slot", r.randrange(max(0, h0 - 14), h0))
         if x < 0.85:
             return ("const", self.const())
-        if x < 0.95 or not self.p.get("pseudo"):
+        if not self.p.get("pseudo") or x < 1.0 - self.p.get("pseudo_rate", 0.05):
             return ("env", r.choice(ENV0))
         name, hasv = r.choice(PSEUDO)
-        return ("pseudo", name, pseudo_operand(r, name) if hasv else None)
+        return ("pseudo", name, self.pseudo_value(name) if hasv else None)
+
+    def pseudo_value(self, name):
+        """Operands come from a small pool per block, so that the same library, tag or data item is
+        pushed more than once (the tool numbers PUSHLIB operands per block by distinct value)."""
+        r = self.rng
+        pool = self.pseudo_pool.setdefault(name, [])
+        if pool and r.random() < 0.5:
+            return r.choice(pool)
+        v = pseudo_operand(r, name)
+        pool.append(v)
+        return v
 
     def tree(self, h0, depth):
         r = self.rng
@@ -277,7 +289,7 @@ class Gen:
                 self.compile(("const", r.choice([0, 0x20, 0x40, 4, 0x80])))
         value = None
         if name == "ASSIGNIMMUTABLE":
-            value = pseudo_operand(r, name)
+            value = self.pseudo_value(name)
         self.emit(name, value, n, 1 if name in SPLIT_PUSHES else 0)
 
     def ending(self):
@@ -323,6 +335,8 @@ def gen_block(rng, profile=None, length=None, depth=None, ending=None, pseudo=Fa
     pname = profile or rng.choice(["plain", "rules", "rules", "memory", "memory", "split", "stack"])
     prof = dict(PROFILES[pname])
     prof["pseudo"] = pseudo
+    if pseudo:
+        prof["pseudo_rate"] = rng.choice([0.05, 0.05, 0.15, 0.3])
     if not splits:
         prof["split"] = 0
     g = Gen(rng, prof)
